@@ -14,6 +14,7 @@ import (
 	"encoding/base64"
 	"encoding/binary"
 	"encoding/hex"
+	"errors"
 	"fmt"
 	"hash"
 	"io"
@@ -46,6 +47,9 @@ type c15Event struct {
 	Ticket  string `json:"ticket,omitempty"`  // "" none | latest | older | prerestart | random | flipped | other-origin | sealed-nocosig
 	Cut     string `json:"cut,omitempty"`     // "" full | after-pkg-1 | mid-entry-first | mid-entry-last | mid-proof-first | mid-proof-last | pre-commit-abort
 	Corrupt string `json:"corrupt,omitempty"` // "" none | entry-first | entry-last | proof-first | proof-last
+	// Fault (Part A only): "upload-K" makes the K-th object-store Upload issued
+	// while this request is served fail once, without being applied.
+	Fault string `json:"fault,omitempty"`
 }
 
 func (e c15Event) String() string {
@@ -63,6 +67,9 @@ func (e c15Event) String() string {
 		if e.Corrupt != "" {
 			s += " corrupt=" + e.Corrupt
 		}
+		if e.Fault != "" {
+			s += " fault=" + e.Fault
+		}
 		return s
 	}
 	return e.Kind
@@ -79,6 +86,9 @@ func (e c15Event) complexity() int {
 	}
 	if e.Corrupt != "" {
 		c++
+	}
+	if e.Fault != "" {
+		c += 2
 	}
 	if e.Kind == "ae" && e.End < e.Start {
 		c++
@@ -98,6 +108,7 @@ type c15Result struct {
 	// ticket) the handler consumed; PkEOF: it ran into the end of the body.
 	PkRead int
 	PkEOF  bool
+	Fault  string // key of the Upload that was failed by an armed fault ("" = none fired)
 }
 
 func (r *c15Result) String() string {
@@ -110,6 +121,14 @@ func (r *c15Result) String() string {
 		return "aborted-before-commit"
 	case r.Status == 409 || r.Status == 202:
 		return fmt.Sprintf("%d(pending %d next %d)", r.Status, r.Pending, r.Next)
+	case r.Fault != "":
+		short := r.Fault
+		if i := strings.Index(short, "/tile/"); i >= 0 {
+			short = short[i+1:]
+		} else if i := strings.LastIndex(short, "/"); i >= 0 {
+			short = short[i+1:]
+		}
+		return fmt.Sprintf("%d(upload of %s failed)", r.Status, short)
 	}
 	return strconv.Itoa(r.Status)
 }
@@ -303,19 +322,22 @@ type c15World struct {
 	otherTick []byte // ticket issued by the current instance for the other origin
 	otherEp   int
 
-	monitor   bool
-	viol      []verifmc.Violation
-	notes     []string
-	abortArm  bool
-	crashes   int
-	done      []string // per-thread response summaries (Part B state key / outcome)
-	sigResp   int      // responses with signatures judged
-	cpWrites  int      // effective mirror-checkpoint writes judged
-	hashMemo  map[*byte][32]byte
-	lastRead  int  // bytes of the last request body the handler consumed
-	lastEOF   bool // the handler was told the last request body had ended
-	pendKey   string
-	mirrorKey string
+	monitor      bool
+	viol         []verifmc.Violation
+	notes        []string
+	abortArm     bool
+	crashes      int
+	done         []string // per-thread response summaries (Part B state key / outcome)
+	sigResp      int      // responses with signatures judged
+	cpWrites     int      // effective mirror-checkpoint writes judged
+	hashMemo     map[*byte][32]byte
+	failUploadAt int // Part A: fail the K-th Upload of the request in flight (0 = off)
+	uploadCount  int
+	faultFired   string // key of the upload that was failed
+	lastRead     int    // bytes of the last request body the handler consumed
+	lastEOF      bool   // the handler was told the last request body had ended
+	pendKey      string
+	mirrorKey    string
 }
 
 var c15CurWorld *c15World // the world whose requests are in flight (seams)
@@ -338,6 +360,35 @@ func c15InstallSeams() {
 	testingOnlyBeforeAddEntriesPackage = func(start int64) {
 		verifmc.Cur.Point(fmt.Sprintf("seam before-package %d", start))
 	}
+}
+
+// c15FaultBackend lets Part A fail one chosen Upload of a request (error, not
+// applied); everything else goes to the model store.
+type c15FaultBackend struct {
+	ctlog.Backend
+	w *c15World
+}
+
+var errC15Injected = errors.New("c15: injected upload failure (not applied)")
+
+func (b *c15FaultBackend) Upload(ctx context.Context, key string, data []byte, opts *ctlog.UploadOptions) error {
+	if w := b.w; w != nil {
+		w.mu.Lock()
+		fire := false
+		if w.failUploadAt > 0 {
+			w.uploadCount++
+			if w.uploadCount == w.failUploadAt {
+				w.failUploadAt = 0
+				w.faultFired = key
+				fire = true
+			}
+		}
+		w.mu.Unlock()
+		if fire {
+			return errC15Injected
+		}
+	}
+	return b.Backend.Upload(ctx, key, data, opts)
 }
 
 type c15BaseState struct {
@@ -468,6 +519,7 @@ func (w *c15World) boot() (*c15Inst, error) {
 	in.bh.Quiet, in.lh.Quiet = w.quiet, w.quiet
 	in.bh.NoFaults, in.lh.NoFaults = !w.faults, !w.faults
 	in.cfg = w.env.config(in.bh, in.lh)
+	in.cfg.Backend = &c15FaultBackend{Backend: in.cfg.Backend, w: w}
 	in.ctx, in.cancel = context.WithCancel(context.Background())
 	wit, err := NewWitness(in.ctx, in.cfg)
 	if err != nil {
@@ -990,8 +1042,17 @@ func (w *c15World) apply(ev c15Event) *c15Result {
 			w.abortArm = true
 			w.mu.Unlock()
 		}
+		if k, ok := strings.CutPrefix(ev.Fault, "upload-"); ok {
+			n, _ := strconv.Atoi(k)
+			w.mu.Lock()
+			w.failUploadAt, w.uploadCount, w.faultFired = n, 0, ""
+			w.mu.Unlock()
+		}
 		rec, aborted := w.serve(in, "/add-entries", "application/octet-stream", body)
 		w.mu.Lock()
+		w.failUploadAt = 0
+		res.Fault = w.faultFired
+		w.faultFired = ""
 		w.abortArm = false
 		res.PkRead, res.PkEOF = max(0, w.lastRead-(len(body)-len(pk))), w.lastEOF
 		w.mu.Unlock()
